@@ -14,8 +14,8 @@ use rayon::prelude::*;
 use serde_json::{json, Value};
 
 const RULE: &str = "literals: (1) exhaustive single-placeholder derivations of the std::fmt grammar \
-(7 args x 10 fill/align x 3 sign x # x 0 x 6 widths x 6 precisions x 11 types x 4 trailing-ws, with and without ':' for empty specs), \
-(2) one-edit neighbours of a seeded sample of (1), (3) all strings up to a length bound over a 27-symbol alphabet with 1-4 byte chars, \
+(7 args x 10 fill/align x 3 sign x # x 0 x 6 widths x 6 precisions x 11 types x 5 trailing-ws (incl. U+3000), with and without ':' for empty specs), \
+(2) one-edit neighbours of a seeded sample of (1), (3) all strings up to a length bound over a 28-symbol alphabet with 1-4 byte chars, \
 (4) proptest sequences of placeholders/text/escapes, (5) corpus. Oracle: rustc_parse_format via fmtref. \
 Non-trivial = std accepts it and it has >=1 placeholder, or std rejects it and it is within one edit of an accepted literal / derive_more's parser accepts it; distinct by literal text";
 
@@ -47,7 +47,8 @@ pub fn enumerate_grammar() -> Vec<String> {
     let zero = ["", "0"];
     let width = ["", "5", "10", "1$", "w$", "0$"];
     let prec = ["", ".3", ".0", ".*", ".1$", ".p$"];
-    let ws = ["", " ", "\n", "  "];
+    // std skips `char::is_whitespace` characters: ASCII and multi-byte ones
+    let ws = ["", " ", "\n", "  ", "\u{3000}"];
     let mut out = Vec::with_capacity(1_400_000);
     for a in args {
         for f in fa {
@@ -75,9 +76,9 @@ pub fn enumerate_grammar() -> Vec<String> {
     out
 }
 
-const ALPHABET: [&str; 27] = [
+const ALPHABET: [&str; 28] = [
     "{", "}", ":", "0", "1", "9", "$", ".", "*", "#", "+", "-", "<", "^", ">", "?", "x", "X", "e", "p", "_", "a",
-    "é", "→", "𝒳", " ", "\n",
+    "é", "→", "𝒳", " ", "\n", "\u{2003}",
 ];
 
 pub fn short_strings(max_len: usize) -> Vec<String> {
@@ -551,7 +552,7 @@ pub fn run(ctx: &Ctx) -> Report {
 
     rep.evidence.exhaustive = Some(false);
     rep.evidence.explanation = format!(
-        "sub-spaces enumerated completely: the {glen} single-placeholder grammar derivations (stage A for all; stage B for {}), all strings of length <= {maxlen} over the 27-symbol alphabet; sampled: one-edit neighbours, sequences",
+        "sub-spaces enumerated completely: the {glen} single-placeholder grammar derivations (stage A for all; stage B for {}), all strings of length <= {maxlen} over the 28-symbol alphabet; sampled: one-edit neighbours, sequences",
         if stride == 1 { "all".to_string() } else { format!("every {stride}th, offset by seed") }
     );
     shrink_violations(ctx, &mut rep);
